@@ -47,6 +47,7 @@ type StateProj struct {
 
 type AcctProj struct {
 	Exists bool     `json:"exists"`
+	Sui    bool     `json:"sui"`
 	Bal    int64    `json:"bal"`
 	Nonce  uint64   `json:"nonce"`
 	S1     int64    `json:"s1"`
@@ -119,6 +120,7 @@ func ProjectState(st *state.StateDB, names Names, accts, vals []common.Address, 
 	for _, a := range accts {
 		ap := AcctProj{Exists: st.VerifAccountExists(a)}
 		if ap.Exists {
+			ap.Sui = st.HasSuicided(a)
 			ap.Bal = I(st.GetBalance(a)) - balBase
 			ap.Nonce = st.GetNonce(a)
 			ap.S1 = I(st.GetState(a, Slot1).Big())
